@@ -157,6 +157,7 @@ type Analyzer struct {
 
 	wireIDs       map[uint64]bool    // node ids used by wire-level harness peers
 	elXfer        map[[3]uint64]bool // (cid, candidate, term) -> the election had transfer permission
+	flooded       bool               // see ev.MaxRecords
 	alias         map[uint64]uint64  // virtual node id -> peer id it speaks as (engine B)
 	nutGone       bool
 	wireQ         []*ev.Rec // requests announced by the wire-level peer, not yet handled by the node
@@ -362,6 +363,16 @@ func Analyze(recs []*ev.Rec) *Report {
 func (a *Analyzer) Feed(r *ev.Rec) {
 	a.rep.Stats["events"]++
 	a.rep.Stats["ev:"+r.K]++
+	if r.K == "event-flood" {
+		// the recorder stopped writing everything but the convergence
+		// verdict: the rules that need the complete log are off from here
+		a.flooded = true
+		a.stat("event-floods")
+		return
+	}
+	if a.flooded && !ev.AfterFlood(r.K) {
+		return
+	}
 	n := a.node(r)
 	if n != nil && r.Inc != 0 && r.K != "open" && r.Inc != n.inc {
 		// late record of an older incarnation (e.g. its FSM goroutine draining
@@ -397,6 +408,9 @@ func (a *Analyzer) Feed(r *ev.Rec) {
 		}
 		a.onTrunc(n, r)
 	case "clear":
+		if n != nil {
+			n.truncPending = 0
+		}
 		a.onClear(n, r)
 	case "compact":
 		a.onCompact(n, r)
@@ -443,6 +457,14 @@ func (a *Analyzer) Feed(r *ev.Rec) {
 		// inside a request handler; replications of its own leadership that
 		// were not stopped yet read that log from their goroutines
 		a.stat("log-removals-in-request-handlers")
+		if n != nil && r.Reason == "discard" && r.St != nil {
+			// the whole log is about to be replaced by the installed snapshot
+			// (its entry at the snapshot index has another term: what follows
+			// belongs to another history). A kill from here on may or may not
+			// have removed the entries beyond the snapshot - like a truncation
+			// that has begun (C10 acknowledged-entry-lost).
+			n.truncPending = r.St.Snap + 1
+		}
 		if r.NEnt > 0 {
 			a.find("C15", "log-removed-under-running-replications", "log-removed-under-running-replications:"+r.Reason, r.Q, "%s steps down and removes entries from its log (%s) in one request handler while %d replications of its leadership are still running and reading that log", n.key, r.Reason, r.NEnt)
 		}
@@ -1252,8 +1274,12 @@ func (a *Analyzer) onPersist(n *nodeState, r *ev.Rec) {
 
 // Finish runs the end-of-log checks and returns the report.
 func (a *Analyzer) Finish() *Report {
-	a.finishClients()
-	a.finishFSM()
+	if a.flooded {
+		a.rep.Inconclusive = append(a.rep.Inconclusive, fmt.Sprintf("event flood: more than %d events; beyond that only the convergence verdict was recorded", ev.MaxRecords))
+	} else {
+		a.finishClients()
+		a.finishFSM()
+	}
 	if !a.ended {
 		a.rep.Inconclusive = append(a.rep.Inconclusive, "run did not reach its end record")
 	}
